@@ -1,4 +1,5 @@
 import EdpVerif.Lemmas.Frag
+import EdpVerif.Generated.Tags
 /-
 C09 — fragment reassembly returns the original message once, in any arrival order.
 Property theorems only; the model is EdpVerif/Impl/Frag.lean, the protocol's splitting EdpVerif/Spec/Frag.lean,
@@ -22,7 +23,7 @@ the events `pre ++ l :: post` are arbitrary except that those of sequence `q` de
 Then the assembler returns nothing at `q`'s events before `l`, the pieces in ASCENDING id at `l`, nothing afterwards,
 and holds an entry for `q` afterwards only if a late duplicate arrived. -/
 theorem C09_ascending_any_order (a : Assembler) (hw : WF a.pending) (q : Nat) (h0 : lookup q a.pending = none)
-    (cache : Option Bytes) (ps : List Bytes) (hne : ps ≠ []) (hlim : ps.length ≤ MAX_FRAGMENTS_VEC)
+    (cache : Option Bytes) (ps : List Bytes) (hne : ps ≠ []) (hlim : ps.length ≤ MAX_FRAGMENT_COUNT)
     (pre post : List Op) (l : Op)
     (hconf : ∀ o ∈ pre ++ l :: post, o.seq = some q → Delivers q cache ps o)
     (hexp : Unexpiring a.timeout (pre ++ l :: post))
@@ -37,7 +38,7 @@ theorem C09_ascending_any_order (a : Assembler) (hw : WF a.pending) (q : Nat) (h
     cases ps with
     | nil => exact absurd rfl hne
     | cons p r => simp
-  have hv : ps.reverse.length ≤ MAX_FRAGMENTS_VEC := by simpa using hlim
+  have hv : ps.reverse.length ≤ MAX_FRAGMENT_COUNT := by simpa using hlim
   obtain ⟨e1, e2⟩ := after_outs_proj q (pre ++ l :: post) a hw
   rw [h0] at e1 e2
   have hproj : proj q (pre ++ l :: post) = proj q pre ++ l :: proj q post := by
@@ -102,7 +103,7 @@ example :
 sequence `q` carry are, in some order, exactly the protocol's split of the pieces `ps` — each once —, then whatever else is
 interleaved the assembler returns nothing at the first `n - 1` of them and the pieces in ASCENDING id at the last. -/
 theorem C09_ascending_perm (a : Assembler) (hw : WF a.pending) (q : Nat) (h0 : lookup q a.pending = none)
-    (cache : Option Bytes) (ps : List Bytes) (hne : ps ≠ []) (hlim : ps.length ≤ MAX_FRAGMENTS_VEC)
+    (cache : Option Bytes) (ps : List Bytes) (hne : ps ≠ []) (hlim : ps.length ≤ MAX_FRAGMENT_COUNT)
     (ops : List Op) (hexp : Unexpiring a.timeout ops)
     (hperm : ((ops.filter (fun o => o.seq == some q)).filterMap Op.toFrag).Perm (number q cache ps)) :
     a.outsFor q ops = List.replicate (ps.length - 1) none ++ [some (cache.getD [] ++ ps.reverse.flatten)] := by
@@ -189,7 +190,7 @@ or at most one non-empty piece, or a palindromic cut) the assembler returns THE 
 section) exactly once, at the arrival of the last missing fragment, for any arrival order, duplication and interleaving.
 `Delivers q cache (cut msg lens) o` says that `o` delivers a fragment of `split q cache msg lens`. -/
 theorem C09_any_order_partial (a : Assembler) (hw : WF a.pending) (q : Nat) (h0 : lookup q a.pending = none)
-    (cache : Option Bytes) (msg : Bytes) (lens : List Nat) (hlim : lens.length + 1 ≤ MAX_FRAGMENTS_VEC)
+    (cache : Option Bytes) (msg : Bytes) (lens : List Nat) (hlim : lens.length + 1 ≤ MAX_FRAGMENT_COUNT)
     (guard : (cut msg lens).reverse.flatten = msg)
     (pre post : List Op) (l : Op)
     (hconf : ∀ o ∈ pre ++ l :: post, o.seq = some q → Delivers q cache (cut msg lens) o)
@@ -213,7 +214,7 @@ example : (cut [1, 2, 3] []).reverse.flatten = [1, 2, 3] ∧ (cut [1, 2, 3] [0])
 /-- NOTHING FOR AN INCOMPLETE SEQUENCE: while some fragment id of `q` has not arrived, nothing is returned at `q`'s events
 (whatever their order and multiplicity, whatever is interleaved), and `q` is held iff something of it has arrived. -/
 theorem C09_incomplete_returns_nothing (a : Assembler) (hw : WF a.pending) (q : Nat) (h0 : lookup q a.pending = none)
-    (cache : Option Bytes) (ps : List Bytes) (hne : ps ≠ []) (hlim : ps.length ≤ MAX_FRAGMENTS_VEC) (ops : List Op)
+    (cache : Option Bytes) (ps : List Bytes) (hne : ps ≠ []) (hlim : ps.length ≤ MAX_FRAGMENT_COUNT) (ops : List Op)
     (hconf : ∀ o ∈ ops, o.seq = some q → Delivers q cache ps o)
     (hexp : Unexpiring a.timeout ops)
     (hmissing : ∃ k, 1 ≤ k ∧ k ≤ ps.length ∧ ∀ o ∈ ops, o.seq = some q → Op.fid o ≠ k) :
@@ -223,7 +224,7 @@ theorem C09_incomplete_returns_nothing (a : Assembler) (hw : WF a.pending) (q : 
     cases ps with
     | nil => exact absurd rfl hne
     | cons p r => simp
-  have hv : ps.reverse.length ≤ MAX_FRAGMENTS_VEC := by simpa using hlim
+  have hv : ps.reverse.length ≤ MAX_FRAGMENT_COUNT := by simpa using hlim
   obtain ⟨e1, e2⟩ := after_outs_proj q ops a hw
   rw [h0] at e1 e2
   have hC := conf_of_proj (X := ops) (t := a.timeout) hconf hexp
@@ -293,29 +294,6 @@ theorem C09_holds_only_incomplete (t : Nat) (ops : List Op) :
     · exact absurd ⟨o, hX, hs⟩ hno
     · exact hs
 
-/-- DEFECT (counts in (100 000, 1 000 000] never complete): when the headers of sequence `q` carry a count above
-`MAX_FRAGMENTS_VEC` — accepted by `FragmentCount::new` up to 1 000 000 — no slot is ever allocated, so NOTHING is ever
-returned for `q`, whatever arrives, in whatever order, however often. -/
-theorem C09_not_completes_above_vec_limit (a : Assembler) (hw : WF a.pending) (q : Nat) (h0 : lookup q a.pending = none)
-    (n : Nat) (hn : MAX_FRAGMENTS_VEC < n) (ops : List Op)
-    (hh : ∀ now fid c d, Op.start now q fid c d ∈ ops → fid = n) :
-    a.outsFor q ops = List.replicate (cnt q ops) none := by
-  obtain ⟨_, e2⟩ := after_outs_proj q ops a hw
-  rw [h0] at e2
-  rw [e2, run_stuck (t := a.timeout) hn (proj q ops) none (by intro m h; simp at h)]
-  · simp only [List.map_const', length_fidsOf_proj]
-  · intro o ho now q' fid c d he
-    subst he
-    obtain ⟨hX, hs | hs⟩ := mem_proj.mp ho
-    · simp only [Op.seq, Option.some.injEq] at hs
-      subst hs
-      exact hh now fid c d hX
-    · simp [Op.seq] at hs
-
-/-- non-vacuity: a count of 100 001 is accepted (the sequence is held) and then never completes -/
-example : MAX_FRAGMENTS_VEC < 100001 ∧ 100001 ≤ MAX_FRAGMENT_COUNT ∧
-    ((Assembler.new 0).after [Op.start 0 5 100001 none [1]]).pendingCount = 1 := by decide
-
 /-- EXPIRY: `cleanup_expired` at clock value `now` keeps exactly the entries touched within the timeout, reports how many it
 dropped, and every `add_fragment` refreshes the entry it leaves behind. -/
 theorem C09_cleanup_drops_exactly_expired (a : Assembler) (hw : WF a.pending) (now q : Nat) :
@@ -357,10 +335,275 @@ theorem C09_cleanup_drops_exactly_expired (a : Assembler) (hw : WF a.pending) (n
 example : ((Assembler.new 5).after [Op.add 0 1 1 [7], Op.cleanup 6]).pendingCount = 0 ∧
     ((Assembler.new 5).after [Op.add 0 1 1 [7], Op.cleanup 5]).pendingCount = 1 := by decide
 
-/-- DEFECT (outside the protocol: two headers with different counts for one sequence): `set_total_fragments` truncates the
-slot vector without recomputing `received_count`, so a message is returned although fragment 1 never arrived. -/
-theorem C09_not_nothing_for_incomplete_after_conflicting_headers :
-    ∃ t, (Assembler.new t).outs [Op.start 0 1 3 none [0x33], Op.start 1 1 2 none [0x22]] = [none, some [0x22]] :=
-  ⟨0, by decide⟩
+/-- EVERY ACCEPTED COUNT COMPLETES (was: counts above the slot-vector limit never completed, repaired by 7a903d6): for every
+number of fragments from 1 up to the accepted maximum `MAX_FRAGMENT_COUNT` — in particular above `MAX_FRAGMENTS_VEC`, where the
+fragments live in the pending map —, the fragments of the protocol's split delivered in the protocol's own order to a fresh
+assembler return nothing `n - 1` times and the message (pieces by ascending id) at the last one, and nothing is held. -/
+theorem C09_every_accepted_count_completes (t now q : Nat) (cache : Option Bytes) (ps : List Bytes) (hne : ps ≠ [])
+    (hlim : ps.length ≤ MAX_FRAGMENT_COUNT) :
+    (Assembler.new t).outs ((number q cache ps).map (fragOp now)) =
+      List.replicate (ps.length - 1) none ++ [some (cache.getD [] ++ ps.reverse.flatten)] ∧
+    ((Assembler.new t).after ((number q cache ps).map (fragOp now))).pendingCount = 0 := by
+  have hall : ∀ o ∈ (number q cache ps).map (fragOp now), o.seq = some q ∧ ∃ f ∈ number q cache ps, o.toFrag = some f := by
+    intro o ho
+    obtain ⟨f, hf, rfl⟩ := List.mem_map.mp ho
+    obtain ⟨i, hi, rfl⟩ := List.mem_mapIdx.mp hf
+    by_cases h0 : i = 0
+    · subst h0
+      exact ⟨rfl, _, hf, rfl⟩
+    · have hb : (i == 0) = false := by simpa using h0
+      refine ⟨by simp [fragOp, hb, Op.seq], _, hf, ?_⟩
+      simp [fragOp, hb, Op.toFrag]
+  have hfilter : ((number q cache ps).map (fragOp now)).filter (fun o => o.seq == some q) = (number q cache ps).map (fragOp now) := by
+    apply List.filter_eq_self.mpr
+    intro o ho
+    simp [(hall o ho).1]
+  have htf : ∀ (L : List Frag), (∀ f ∈ L, (fragOp now f).toFrag = some f) → (L.map (fragOp now)).filterMap Op.toFrag = L := by
+    intro L
+    induction L with
+    | nil => intro _; rfl
+    | cons f r ih =>
+      intro h
+      simp only [List.map_cons, List.filterMap_cons, h f List.mem_cons_self, ih (fun g hg => h g (List.mem_cons_of_mem _ hg))]
+  have hback : ((number q cache ps).map (fragOp now)).filterMap Op.toFrag = number q cache ps := by
+    apply htf
+    intro f hf
+    obtain ⟨i, hi, rfl⟩ := List.mem_mapIdx.mp hf
+    by_cases h0 : i = 0
+    · subst h0; rfl
+    · have hb : (i == 0) = false := by simpa using h0
+      simp [fragOp, hb, Op.toFrag]
+  have hw : WF (Assembler.new t).pending := by simp [WF, Assembler.new]
+  have hexp : Unexpiring (Assembler.new t).timeout ((number q cache ps).map (fragOp now)) := by
+    intro n hn
+    obtain ⟨hs, _⟩ := hall _ hn
+    simp [Op.seq] at hs
+  have hperm : ((((number q cache ps).map (fragOp now)).filter (fun o => o.seq == some q)).filterMap Op.toFrag).Perm
+      (number q cache ps) := by rw [hfilter, hback]
+  have houts := C09_ascending_perm (Assembler.new t) hw q rfl cache ps hne hlim _ hexp hperm
+  -- every event is one of `q`, so `outsFor q` is `outs`
+  have hof : ∀ (L : List Op) (a : Assembler), (∀ o ∈ L, o.seq = some q) → a.outsFor q L = a.outs L := by
+    intro L
+    induction L with
+    | nil => intro _ _; rfl
+    | cons o r ih =>
+      intro a h
+      simp only [Assembler.outsFor, Assembler.outs, h o List.mem_cons_self, if_true,
+        ih _ (fun x hx => h x (List.mem_cons_of_mem _ hx))]
+  rw [hof _ _ (fun o ho => (hall o ho).1)] at houts
+  refine ⟨houts, ?_⟩
+  -- nothing is held: no entry of `q` (it completed at the last event), and no other sequence ever had an event
+  have h7 := C09_holds_only_incomplete t ((number q cache ps).map (fragOp now))
+  have hnoq : lookup q ((Assembler.new t).after ((number q cache ps).map (fragOp now))).pending = none := by
+    have hpos : 1 ≤ ps.length := by
+      cases ps with
+      | nil => exact absurd rfl hne
+      | cons p r => simp
+    have hex : ∃ x ∈ (number q cache ps).map (fragOp now), (fun o : Op => o.seq == some q) x = true := by
+      obtain ⟨f, hf, _⟩ := number_has_fid q cache ps 1 (Nat.le_refl _) hpos
+      exact ⟨fragOp now f, List.mem_map.mpr ⟨f, hf, rfl⟩, by simp [(hall _ (List.mem_map.mpr ⟨f, hf, rfl⟩)).1]⟩
+    obtain ⟨pre, l, post, e, hlp, hpostp⟩ := exists_last _ _ hex
+    have hpost0 : post = [] := by
+      cases post with
+      | nil => rfl
+      | cons x r =>
+        have hx : x ∈ (number q cache ps).map (fragOp now) := by rw [e]; simp
+        have := hpostp x List.mem_cons_self
+        simp [(hall x hx).1] at this
+    subst hpost0
+    -- use the any-order theorem on `pre ++ [l]`
+    have hl : l.seq = some q := by simpa using hlp
+    have hmemL : ∀ o ∈ pre ++ [l], o ∈ (number q cache ps).map (fragOp now) := by intro o ho; rw [e]; exact ho
+    have hfm : ((pre ++ [l]).filterMap Op.toFrag) = number q cache ps := by rw [← e]; exact hback
+    have hnd : ((pre ++ [l]).map Op.fid).Nodup := by
+      have := fids_filterMap q (pre ++ [l]) (fun o ho => (hall o (hmemL o ho)).1)
+      rw [← this, hfm]
+      exact number_fids_nodup q cache ps
+    rw [e]
+    refine (C09_ascending_any_order (Assembler.new t) hw q rfl cache ps hne hlim pre [] l ?_ ?_ hl ?_ ?_ ⟨1, Nat.le_refl _, hpos, by simp⟩).2.mpr rfl
+    · intro o ho _
+      obtain ⟨_, f, hf, hof'⟩ := hall o (hmemL o ho)
+      obtain ⟨now', hnow'⟩ := (fragOp_of_toFrag hof').1
+      exact ⟨now', f, hf, hnow'⟩
+    · intro n hn
+      have := (hall _ (hmemL _ hn)).1
+      simp [Op.seq] at this
+    · intro o ho _ he
+      rw [List.map_append, List.nodup_append] at hnd
+      exact hnd.2.2 (Op.fid o) (List.mem_map.mpr ⟨o, ho, rfl⟩) (Op.fid l) (by simp) he
+    · intro k k1 k2 hk
+      obtain ⟨f, hf, hfk⟩ := number_has_fid q cache ps k k1 k2
+      have : f ∈ (pre ++ [l]).filterMap Op.toFrag := by rw [hfm]; exact hf
+      obtain ⟨o, ho, hof'⟩ := List.mem_filterMap.mp this
+      have hfo := (fragOp_of_toFrag hof').2
+      rcases List.mem_append.mp ho with h | h
+      · exact ⟨o, h, (hall o (hmemL o ho)).1, by rw [← hfo, hfk]⟩
+      · simp at h; subst h
+        exact absurd (by rw [← hfo, hfk]) hk
+  cases hp : ((Assembler.new t).after ((number q cache ps).map (fragOp now))).pending with
+  | nil => simp [Assembler.pendingCount, hp]
+  | cons e r =>
+    obtain ⟨k, m⟩ := e
+    have hlk : lookup k ((Assembler.new t).after ((number q cache ps).map (fragOp now))).pending = some m := by
+      rw [hp]; simp [lookup]
+    obtain ⟨_, o, ho, hs⟩ := h7.2.2 k m hlk
+    have : k = q := by
+      have := (hall o ho).1
+      rw [this] at hs
+      exact (Option.some.inj hs).symm
+    subst this
+    rw [hnoq] at hlk
+    simp at hlk
+
+/-- non-vacuity: there are accepted counts above the slot-vector limit, and a three-fragment message goes through -/
+example : MAX_FRAGMENTS_VEC < MAX_FRAGMENT_COUNT ∧
+    (Assembler.new 0).outs ((number 5 none [[1], [2], [3]]).map (fragOp 0)) = [none, none, some [3, 2, 1]] := by decide
+
+/-- COUNTS OUTSIDE THE ACCEPTED RANGE ARE REFUSED AND NOTHING IS HELD: a header announcing 0 fragments or more than
+`MAX_FRAGMENT_COUNT` (`FragmentCount::new` fails) returns nothing and leaves the assembler exactly as it was. -/
+theorem C09_count_outside_limits_refused (a : Assembler) (now q fid : Nat) (cache : Option Bytes) (d : Bytes)
+    (h : fid = 0 ∨ MAX_FRAGMENT_COUNT < fid) : a.startFragment now q fid cache d = (a, none) := by
+  simp only [Assembler.startFragment, if_pos h]
+
+/-- non-vacuity: one more than the maximum -/
+example : ((Assembler.new 9).after [Op.start 0 1 (MAX_FRAGMENT_COUNT + 1) none [1]]).pendingCount = 0 := by decide
+
+/-- A CONFLICTING HEADER IS IGNORED (was: it truncated the slot vector and a message came back with a fragment missing,
+repaired by e936302): a header whose count differs from the count its sequence already has returns nothing and leaves the
+assembler — the entry, its fragments, its time stamp — exactly as it was. -/
+theorem C09_conflicting_header_ignored (a : Assembler) (now q fid c : Nat) (cache : Option Bytes) (d : Bytes) (m : FragMsg)
+    (hm : lookup q a.pending = some m) (hc : m.total = some c) (hne : c ≠ fid) :
+    a.startFragment now q fid cache d = (a, none) := by
+  simp only [Assembler.startFragment]
+  split
+  · rfl
+  · rw [hm]
+    have : m.total.isSome ∧ m.total ≠ some fid := by
+      rw [hc]; exact ⟨rfl, fun e => hne (Option.some.inj e)⟩
+    simp only [if_pos this]
+
+/-- non-vacuity: the former witness — `start(1,3,[33]); start(1,2,[22])` — now returns nothing twice and keeps the first header -/
+example : (Assembler.new 0).outs [Op.start 0 1 3 none [0x33], Op.start 1 1 2 none [0x22]] = [none, none] ∧
+    (lookup 1 ((Assembler.new 0).after [Op.start 0 1 3 none [0x33], Op.start 1 1 2 none [0x22]]).pending).map (·.total) =
+      some (some 3) := by decide
+
+/-- "WHEN AND ONLY WHEN THE LAST MISSING FRAGMENT ARRIVES": `pre` are arbitrary events among which those of `q` deliver
+fragments of the split (any order, any multiplicity) but not all of them; `o` is the next event of `q`. The assembler
+returns something at `o` IF AND ONLY IF every fragment id other than `o`'s has arrived in `pre` — and then it is the message
+(pieces by ascending id) and `q` is no longer held; otherwise `q` stays held. -/
+theorem C09_returns_iff_last_missing (a : Assembler) (hw : WF a.pending) (q : Nat) (h0 : lookup q a.pending = none)
+    (cache : Option Bytes) (ps : List Bytes) (hne : ps ≠ []) (hlim : ps.length ≤ MAX_FRAGMENT_COUNT)
+    (pre : List Op) (o : Op)
+    (hconf : ∀ x ∈ pre ++ [o], x.seq = some q → Delivers q cache ps x)
+    (hexp : Unexpiring a.timeout pre) (ho : o.seq = some q)
+    (hmissing : ∃ k, 1 ≤ k ∧ k ≤ ps.length ∧ ∀ x ∈ pre, x.seq = some q → Op.fid x ≠ k) :
+    (((a.after pre).step o).2.isSome ↔
+      ∀ k, 1 ≤ k → k ≤ ps.length → k ≠ Op.fid o → ∃ x ∈ pre, x.seq = some q ∧ Op.fid x = k) ∧
+    (((a.after pre).step o).2.isSome →
+      ((a.after pre).step o).2 = some (cache.getD [] ++ ps.reverse.flatten) ∧
+      lookup q ((a.after pre).step o).1.pending = none) ∧
+    (((a.after pre).step o).2 = none → (lookup q ((a.after pre).step o).1.pending).isSome) := by
+  have hn : 1 ≤ ps.reverse.length := by
+    cases ps with
+    | nil => exact absurd rfl hne
+    | cons p r => simp
+  have hv : ps.reverse.length ≤ MAX_FRAGMENT_COUNT := by simpa using hlim
+  obtain ⟨e1, _⟩ := after_outs_proj q pre a hw
+  rw [h0] at e1
+  have hwa : WF (a.after pre).pending := (after_invariants_wf pre a hw)
+  have hta : (a.after pre).timeout = a.timeout := after_timeout pre a
+  obtain ⟨s1, s2⟩ := step_self (a.after pre) o q ho
+  rw [s1, s2, e1, hta]
+  have hC := conf_of_proj (X := pre) (t := a.timeout) (fun x hx => hconf x (by simp [hx])) hexp
+  have hnf : ¬ Full ps.reverse ((fidsOf (proj q pre)).reverse ++ []) := by
+    obtain ⟨k, k1, k2, hk⟩ := hmissing
+    intro hf
+    have := hf (k - 1) (by simp; omega)
+    have e : k - 1 + 1 = k := by omega
+    rw [e, List.append_nil, List.mem_reverse, mem_fidsOf_proj] at this
+    obtain ⟨x, hx, hs, hk'⟩ := this
+    exact hk x hx hs hk'
+  obtain ⟨r1, _⟩ := run_incomplete (q := q) (t := a.timeout) hn hv (proj q pre) [] none rfl hC hnf
+  rw [List.append_nil] at r1
+  have hoF : IsFrag ps.reverse q cache o := isFrag_of_delivers (hconf o (by simp) ho)
+  obtain ⟨f1, f2⟩ := stepQ_frag (t := a.timeout) hn hv r1 hoF
+  have hrange := isFrag_fid_range hn hoF
+  have hfull_iff : Full ps.reverse (Op.fid o :: (fidsOf (proj q pre)).reverse) ↔
+      ∀ k, 1 ≤ k → k ≤ ps.length → k ≠ Op.fid o → ∃ x ∈ pre, x.seq = some q ∧ Op.fid x = k := by
+    constructor
+    · intro hf k k1 k2 hk
+      have := hf (k - 1) (by simp; omega)
+      have e : k - 1 + 1 = k := by omega
+      rw [e] at this
+      rcases List.mem_cons.mp this with h | h
+      · exact absurd h hk
+      · rw [List.mem_reverse, mem_fidsOf_proj] at h; exact h
+    · intro h i hi
+      by_cases hk : i + 1 = Op.fid o
+      · simp [hk]
+      · refine List.mem_cons_of_mem _ ?_
+        rw [List.mem_reverse, mem_fidsOf_proj]
+        exact h (i + 1) (by omega) (by simp at hi; omega) hk
+  by_cases hF : Full ps.reverse (Op.fid o :: (fidsOf (proj q pre)).reverse)
+  · have hs := f1 hF
+    rw [hs]
+    refine ⟨⟨fun _ => hfull_iff.mp hF, fun _ => rfl⟩, fun _ => ⟨by simp [ascending], rfl⟩, fun h => by simp at h⟩
+  · obtain ⟨g1, g2⟩ := f2 hF
+    rw [g2]
+    refine ⟨⟨fun h => by simp at h, fun h => absurd (hfull_iff.mpr h) hF⟩, fun h => by simp at h, fun _ => ?_⟩
+    cases hst : (stepQ a.timeout (afterQ a.timeout none (proj q pre)) o).1 with
+    | none =>
+      rw [hst] at g1
+      have : (Op.fid o :: (fidsOf (proj q pre)).reverse) = [] := g1
+      simp at this
+    | some m => rfl
+
+/-- non-vacuity: three fragments; after ids 3 and 1 the arrival of 2 returns the message, the arrival of a duplicate 1 does not -/
+example : (((Assembler.new 9).after [Op.start 0 1 3 none [1], Op.add 1 1 1 [3]]).step (Op.add 2 1 2 [2])).2 = some [3, 2, 1] ∧
+    (((Assembler.new 9).after [Op.start 0 1 3 none [1], Op.add 1 1 1 [3]]).step (Op.add 2 1 1 [3])).2 = none := by decide
+
+/-- AFTER EVERY RECEIVED FRAME ONLY UNEXPIRED INCOMPLETE SEQUENCES ARE HELD (was: `cleanup_expired` was never called on a
+connection, repaired by f40d0e7). A connection handles a frame received at clock value `now` by `cleanup_expired()` followed —
+for a fragment frame — by one `start_fragment` / `add_fragment` that reads the clock again (not earlier: `Instant` is
+monotonic). For EVERY history of frames (any clock values, any fragment operations: junk ids, conflicting headers, any
+interleaving) and every further frame, each sequence the assembler holds afterwards is incomplete and was touched within the
+timeout before `now`; and there is one entry per sequence id. -/
+theorem C09_after_every_frame_only_unexpired_incomplete (t : Nat) (frames : List (Nat × Option Op)) (now : Nat) (o : Option Op)
+    (hmono : ∀ op, o = some op → now ≤ Op.now op) :
+    WF (((Assembler.new t).afterFrames frames).onFrame now o).1.pending ∧
+    ∀ q m, lookup q (((Assembler.new t).afterFrames frames).onFrame now o).1.pending = some m →
+      m.isComplete = false ∧ now - m.last ≤ t := by
+  have hw0 : WF (Assembler.new t).pending := by simp [WF, Assembler.new]
+  have hi0 : AllIncomplete (Assembler.new t).pending := by intro q m h; simp [Assembler.new, lookup] at h
+  obtain ⟨hw, hi, ht⟩ := afterFrames_invariants frames (Assembler.new t) hw0 hi0
+  obtain ⟨w, i⟩ := onFrame_invariants _ now o hw hi
+  have u := onFrame_unexpired _ now o hw hmono
+  rw [ht] at u
+  exact ⟨w, fun q m hm => ⟨i q m hm, u q m hm⟩⟩
+
+/-- non-vacuity: timeout 5; a stray continuation received at 0 is still held after a tick at 5 and gone after a tick at 6 -/
+example : (((Assembler.new 5).afterFrames [(0, some (Op.add 0 1 1 [7]))]).onFrame 5 none).1.pendingCount = 1 ∧
+    (((Assembler.new 5).afterFrames [(0, some (Op.add 0 1 1 [7]))]).onFrame 6 none).1.pendingCount = 0 := by decide
+
+/-- THE CONNECTION EXPIRES ON EVERY FRAME — tie of `Assembler.onFrame` to the source text of `Connection::receive_message`
+(extracted by the translator on every run): the calls on `self.fragment_assembler` are, in textual order, `cleanup_expired`,
+`start_fragment`, `add_fragment`; `cleanup_expired()` is the statement after `let data = self.read_message().await?;` inside
+the loop, before the tick's `continue`; the connection has one assembler, built by `FragmentAssembler::new()`, whose timeout is
+`DEFAULT_FRAGMENT_TIMEOUT` — so the previous theorem applies to it with `t = DEFAULT_FRAGMENT_TIMEOUT`. -/
+theorem C09_connection_expires_on_every_frame :
+    Gen.RECEIVE_ASSEMBLER_OPS = ["cleanup_expired", "start_fragment", "add_fragment"] ∧
+    Gen.RECEIVE_CLEANUP_PER_FRAME = true ∧ Gen.CONNECTION_ASSEMBLERS = 1 ∧
+    Assembler.default.timeout = Gen.DEFAULT_FRAGMENT_TIMEOUT_MS ∧ 0 < Gen.DEFAULT_FRAGMENT_TIMEOUT_MS := by decide
+
+/-- THE CONSTANTS OF THE SOURCE ARE THE MODEL'S AND ARE CONSISTENT (re-checked against the values extracted on every run):
+the two limits the model uses are the extracted ones, the vector limit is positive and does not exceed the accepted maximum,
+the accepted maximum fits `usize`/`u64` arithmetic with room to spare (`received_count += 1`, `count as usize`), and the
+frame tags of fragmentation.rs, connection.rs and erltf's tags.rs agree with each other and with the protocol (69 and 70). -/
+theorem C09_source_constants_consistent :
+    MAX_FRAGMENTS_VEC = Gen.MAX_FRAGMENTS_VEC ∧ MAX_FRAGMENT_COUNT = Gen.MAX_FRAGMENT_COUNT ∧
+    0 < MAX_FRAGMENTS_VEC ∧ MAX_FRAGMENTS_VEC ≤ MAX_FRAGMENT_COUNT ∧ MAX_FRAGMENT_COUNT < 2 ^ 32 ∧
+    Gen.FRAG_DIST_FRAG_HEADER = 69 ∧ Gen.FRAG_DIST_FRAG_CONT = 70 ∧
+    Gen.CONN_DIST_FRAG_HEADER = Gen.FRAG_DIST_FRAG_HEADER ∧ Gen.CONN_DIST_FRAG_CONT = Gen.FRAG_DIST_FRAG_CONT ∧
+    Gen.DIST_FRAG_HEADER = Gen.FRAG_DIST_FRAG_HEADER := by decide
 
 end Edp.Props.C09
